@@ -1,0 +1,9 @@
+//go:build verif
+
+package app
+
+import "github.com/cosmos/cosmos-sdk/types/module"
+
+// VerifModuleManager exposes the module manager to the verification harness (/verif/harness, built with -tags verif):
+// the harness runs a single module's own ExportGenesis / InitGenesis on a live store. Not compiled into normal builds.
+func (app *SekaiApp) VerifModuleManager() *module.Manager { return app.mm }
